@@ -35,7 +35,7 @@ def gen_schedule(rng, system, T0, allow_noniso=True, duration=1e4):
 
 
 def gen_config(rng, system=None, tier='quick', allow_noniso=True, out_of_window=False, grid_class=None,
-               sites=None, allow_beta2=False, iterator=None, max_steps=None, allow_dtfrac=False):
+               sites=None, allow_beta2=False, iterator=None, max_steps=None, allow_dtfrac=False, allow_elastic=False):
     system = system or rng.choice(['alzr', 'nialcr', 'almgsi'], p=[0.45, 0.35, 0.2])
     system = str(system)
     cfg = precip.default_cfg(system)
@@ -130,6 +130,14 @@ def gen_config(rng, system=None, tier='quick', allow_noniso=True, out_of_window=
     for p in phases:
         if rng.random() < 0.2:
             cfg['strain'][p] = {'kind': 'constant', 'value': _loguniform(rng, 1e5, 2e7)}
+        elif allow_elastic and rng.random() < 0.15:
+            # elastic strain energy computed from moduli and eigenstrain (Khachaturyan / Eshelby paths)
+            cfg['strain'][p] = {'kind': 'elastic', 'E': float(rng.uniform(60e9, 200e9)), 'nu': float(rng.uniform(0.25, 0.35)),
+                                'eigenstrain': float(rng.uniform(5e-4, 4e-3))}
+    if len(phases) > 1 and rng.random() < 0.3:
+        # nucleation on the surface of another precipitate phase
+        a, b = rng.choice(len(phases), size=2, replace=False)
+        cfg['parents'] = {phases[int(a)]: [phases[int(b)]]}
     # ---------------------------------------------------------------- PBM grid
     gclass = grid_class or ('in_range' if rng.random() < 0.85 else 'out_of_range')
     cMax = _loguniform(rng, 4e-9, 4e-8)
